@@ -10,6 +10,7 @@ import (
 	"os"
 	"path/filepath"
 	"strings"
+	"sync"
 
 	"github.com/protomaps/go-pmtiles/pmtiles"
 	"verifharness/core"
@@ -93,6 +94,15 @@ func randTileSet(r *core.Rng, n int, maxID uint64, clustered bool, maxLen int) t
 		}
 		ts.entries = append(ts.entries, pmtiles.EntryV3{TileID: id, Offset: c.off, Length: c.l, RunLength: rl})
 		id += uint64(rl)
+	}
+	if k := len(ts.entries); k > 0 && r.Chance(1, 5) {
+		// the last entry becomes a run that reaches into the next zoom level (its first tile is in zoom z,
+		// its last in zoom z+1): what addresses the highest tile is the END of a run
+		last := &ts.entries[k-1]
+		z, _, _ := pmtiles.IDToZxy(last.TileID)
+		if nb := base(uint(z) + 1); z < 12 && nb+4 < maxID {
+			last.RunLength = uint32(nb-last.TileID) + 1 + uint32(r.Intn(3))
+		}
 	}
 	if !clustered && len(contents) > 1 {
 		// permute the contents in the data section
@@ -343,21 +353,28 @@ func compOf(s string) pmtiles.Compression {
 }
 
 // scratch directory of this harness process (outside /repo and /verif), removed at exit
-var scratchDir string
+var scratchDir, scratchRoot string
+var scratchOnce sync.Once
 
 func Scratch() string {
-	if scratchDir == "" {
+	scratchOnce.Do(func() {
 		d, err := os.MkdirTemp("", "vhscratch")
 		if err != nil {
 			panic(err)
 		}
-		scratchDir = d
-	}
+		// every file the cases hand to the code under test lives below a directory whose name means something
+		// in URLs ('#', '?', a valid percent escape, a space, a bare '%'): local paths are paths, not URLs
+		sd := filepath.Join(d, "s #1%41?x=y 100%")
+		if err := os.MkdirAll(sd, 0o755); err != nil {
+			panic(err)
+		}
+		scratchRoot, scratchDir = d, sd
+	})
 	return scratchDir
 }
 func CleanupScratch() {
-	if scratchDir != "" {
-		os.RemoveAll(scratchDir)
+	if scratchRoot != "" {
+		os.RemoveAll(scratchRoot)
 	}
 }
 
